@@ -871,6 +871,9 @@ func (s *engaSim) label(vk *vkCtx, prefix string) {
 	if st.byzBundles > 0 {
 		vk.Label(prefix + "byz_bundle")
 	}
+	if st.byzCertSplit > 0 {
+		vk.Label(prefix + "byz_cert_split_equivocation")
+	}
 	if st.netDup > 0 {
 		vk.Label(prefix + "duplicates")
 	}
